@@ -30,7 +30,7 @@ SPEC = docsweep.Spec(
           "cells across duplicate_merged_cells; image folder in thorough); non-trivial = has merged cells or formatting; "
           "distinct = package bytes"),
     knobs={"merged_cells": 0.7, "tables": 0.45, "links": 0.35},
-    edge=[],
+    edge=["textbox_in_link"],
     project=project,
     oracle=oracle,
     nontrivial=lambda fs: bool(fs & {"merged_cells", "heading", "corpus"} or {f for f in fs if f.startswith("fmt_")}),
